@@ -57,13 +57,14 @@ Proof.
     - split; [discriminate|]. intros [= ->]. rewrite (proj2 (expr_eqb_eq e e) eq_refl) in E. discriminate. }
   assert (H2 : (if vals_eqb (fst o) (wanted c) then []
                 else match reference c with
-                     | Ok _ => ["value_equals_documented_semantics"%string]
+                     | Ok _ => if all_recursion_error (fst o) then ["legal_expression_raised_RecursionError"%string]
+                               else ["value_equals_documented_semantics"%string]
                      | Er _ => ["rejected_with_ValueError"%string]
                      end) = [] <-> fst o = wanted c).
   { destruct (vals_eqb (fst o) (wanted c)) eqn:E.
     - apply vals_eqb_eq in E. tauto.
     - split.
-      + destruct (reference c); discriminate.
+      + destruct (reference c); [destruct (all_recursion_error (fst o))|]; discriminate.
       + intros Heq. rewrite (proj2 (vals_eqb_eq _ _) Heq) in E. discriminate. }
   assert (H3 : (if vals_eqb (snd o) (fst o) then [] else ["cache_transparent"%string]) = [] <-> snd o = fst o).
   { destruct (vals_eqb (snd o) (fst o)) eqn:E.
@@ -87,11 +88,15 @@ Qed.
 Lemma validb_valid c : validb c = true -> valid c.
 Proof.
   unfold validb, valid. intros H.
-  apply andb_prop in H as [H H4]. apply andb_prop in H as [H H3]. apply andb_prop in H as [H1 H2].
+  apply andb_prop in H as [H H4]. apply andb_prop in H as [H H5]. apply andb_prop in H as [H H3].
+  apply andb_prop in H as [H1 H2].
   split; [now apply res_eqb_eq|]. split.
   { destruct (reference c) as [e|[|t|]]; cbn; auto. discriminate. }
   split.
   { apply orb_prop in H3 as [H3|H3]; [left; now apply negb_true_iff in H3|now right]. }
+  split.
+  { intros e Ee. rewrite Ee in H5. apply orb_prop in H5 as [H5|H5];
+      [left; now apply Nat.eqb_eq in H5|right; now apply Nat.leb_le in H5]. }
   destruct (c_expected c) as [e|]; [|exact I].
   destruct (reference c) as [e'|x] eqn:Er; [|discriminate].
   apply expr_eqb_eq in H4. subst e'. unfold reference in Er.
